@@ -29,6 +29,7 @@ def main (args : List String) : IO UInt32 := do
       | "life-c03" => Driver.LifeDrv.run .c03 ops impl
       | "life-c04" => Driver.LifeDrv.run .c04 ops impl
       | "life-residue" => Driver.LifeDrv.run .residue ops impl
+      | "life-c02" => Driver.LifeDrv.run .c02 ops impl
       | "c09" => Driver.C09.run ops impl
       | "c02-rpc" => Driver.C09.runC02 ops impl
       | "c02-box" => Driver.BoxingD.run ops impl
